@@ -256,7 +256,13 @@ func (h *Hist) Apply(op string) string {
 	if msg != "" {
 		h.dead = true
 		if strings.HasPrefix(msg, "logging.Crit") {
-			h.fail("builder reached logging.Crit: "+normErr(strings.TrimPrefix(msg, "logging.Crit: ")), msg)
+			// a deliberate halt of the node: judged by C07 (Hooks.Supply), which owns the
+			// "no block boundary is lost" oracle; for the other checks the path ends here
+			if h.Hooks.Supply {
+				h.fail("builder reached logging.Crit: "+normErr(strings.TrimPrefix(msg, "logging.Crit: ")), msg)
+			} else {
+				h.R.Count("paths_ended_by_logging_crit_in_the_builder(judged_by_C07)", 1)
+			}
 		} else {
 			h.fail(fmt.Sprintf("builder panics at %s: %s", where, normErr(msg)), msg)
 		}
